@@ -25,6 +25,11 @@ import Bng.Model.FreeList
                get s3              => <hex> | none
                owner <hex>         => s3 | none                (reverse index, via verif hook)
                stats               => <allocated> <available> <total>
+               burst s3 <k>        => ok <hex> | exhausted | mixed <answer>,<answer>,…
+                                      (k concurrent Allocate calls of one subscriber; model: ONE allocate,
+                                       see Bng.Spec.C01FreeList.burst_equals_single_allocate)
+               audit               => ok | bad lost=<n> stale=<n> norev=<n> dup=<n>
+                                      (allocations, free list and reverse index compared with each other)
 -/
 namespace Bng.Drv.FreeListDrv
 open Bng Bng.Drv Bng.FreeList
@@ -171,6 +176,35 @@ def step (kind : Kind) (st : St) (toks : List String) (impl : String) : St × Li
     match construct kind toks with
     | some (st', o) => (st', { modelObs := o })
     | none => (st, { modelObs := "badop" })
+  | ["burst", k, n] =>
+    match kind, st.model, parseTagged 's' k, n.toNat? with
+    | .localp, some m, some k, some (_ + 1) =>
+      -- a burst is linearised as one allocate (every further call of the burst is idempotent)
+      let (m', o) := FreeList.alloc m k
+      -- the implementation's answers, one by one, are what the pool told the subscriber
+      let answers : List String := match splitTokens impl with
+        | ["mixed", l] => (l.splitOn ",").map fun a => a.replace ":" " "
+        | _ => [impl]
+      let (mst', vs) := answers.foldl (fun (acc : Spec.MSt × List PoolSpec.Verdict) a =>
+        let (ms, vs) := Spec.mcheck st.mgeo acc.1 (event kind (.alloc k) a)
+        (ms, acc.2 ++ vs)) (st.mst, [])
+      ({ st with model := some m', mst := mst' },
+       { modelObs := showObs kind st.dl o, viols := vs.map fun (n, d) => (n, "none", d) })
+    | _, _, _, _ => (st, { modelObs := "badop" })
+  | ["audit"] =>
+    match kind, st.model with
+    | .localp, some _ =>
+      -- the model's three structures are consistent in every reachable state (Inv.perm, Inv.revOK)
+      let num := fun (key : String) => ((splitTokens impl).filterMap fun t =>
+        if t.startsWith key then (t.drop key.length).toString.toNat? else none).head?.getD 0
+      let vs : List (String × String × String) :=
+        if impl == "ok" then [] else
+          (if num "lost=" > 0 then [("total", "none", s!"{num "lost="} addresses are neither held nor free")] else []) ++
+          (if num "stale=" + num "norev=" > 0 then
+            [("agree", "none", s!"reverse index disagrees with the allocations ({impl})")] else []) ++
+          (if num "dup=" > 0 then [("unique", "none", s!"{num "dup="} addresses occur twice in allocations + free list")] else [])
+      (st, { modelObs := "ok", viols := vs })
+    | _, _ => (st, { modelObs := "badop" })
   | ["contains", a] =>
     -- Pool.Contains is a function of the configuration alone
     match kind, st.model, parseHex a with
